@@ -1,3 +1,4 @@
+use ecow::EcoString;
 use syntax::{
     ast::{self, AstNode},
     parser::TextSize,
@@ -66,6 +67,15 @@ pub fn exec(db: &dyn IndexDatabase, range: FileRange) -> Option<Vec<InlayHint>> 
                     hints.extend(new_hints);
                 }
             }
+            Symbol::Multiclass(multiclass) => {
+                let template_arg_names = multiclass
+                    .iter_template_arg()
+                    .map(|arg_id| symbol_map.template_arg(arg_id).name.clone())
+                    .collect();
+                if let Some(new_hints) = inlay_hint_template_args(db, template_arg_names, symbol_loc) {
+                    hints.extend(new_hints);
+                }
+            }
             Symbol::RecordField(record_field) => {
                 if let Some(new_hints) = inlay_hint_record_field(db, record_field, symbol_loc) {
                     hints.extend(new_hints);
@@ -83,6 +93,19 @@ fn inlay_hint_class(
     db: &dyn IndexDatabase,
     symbol_map: &SymbolMap,
     class: &Record,
+    symbol_loc: FileRange,
+) -> Option<Vec<InlayHint>> {
+    let template_arg_names = class
+        .iter_template_arg()
+        .map(|arg_id| symbol_map.template_arg(arg_id).name.clone())
+        .collect();
+    inlay_hint_template_args(db, template_arg_names, symbol_loc)
+}
+
+/// hints for the positional arguments of a reference to a class or a multiclass
+fn inlay_hint_template_args(
+    db: &dyn IndexDatabase,
+    template_arg_names: Vec<EcoString>,
     symbol_loc: FileRange,
 ) -> Option<Vec<InlayHint>> {
     let parse = db.parse(symbol_loc.file);
@@ -111,11 +134,6 @@ fn inlay_hint_class(
         .arg_values()
         .take_while(|it| matches!(it, ast::ArgValue::PositionalArgValue(_)))
         .map(|value| value.syntax().text_range());
-
-    let template_arg_names = class
-        .iter_template_arg()
-        .map(|arg_id| symbol_map.template_arg(arg_id))
-        .map(|arg| arg.name.clone());
 
     let mut hints = vec![];
     for (arg_range, name) in arg_ranges.zip(template_arg_names) {
